@@ -325,7 +325,15 @@ class Run:
         acc2, ids2 = self.validate(rfiles, specdir, module, cfg, env=env, procs=1, workers=4)
         flaky = [i for i in ids2 if i in acc2]
         if flaky and require_repro:
-            raise Infra("rejections not reproducible when re-executed alone: %s" % flaky[:5])
+            # a verdict needs a rejection that reproduces when its inputs are re-executed alone on fresh objects; one that
+            # does not (it depended on what an earlier scenario left behind in the shared rig) is never reported. If
+            # others do reproduce they are reported and the rest is noted; if none does, the run is inconclusive.
+            if len(flaky) == len([i for i in pick if i in ids2]):
+                raise Infra("rejections not reproducible when re-executed alone: %s" % flaky[:5])
+            log("%d of %d rejections did not reproduce when re-executed alone and are not reported: %s" % (len(flaky), len(pick), flaky[:5]))
+            self.assumptions.append("%d rejected scenarios of block %s were accepted when re-executed alone and were dropped" % (len(flaky), block))
+            pick = [i for i in pick if i not in flaky]
+            flaky = []
         rlines = scenario_lines(rfiles, pick)
         if flaky:
             # the property itself is about repeatability: the recorded disagreement is the evidence, keep the original scenario
